@@ -22,6 +22,7 @@ type c07Model struct {
 	// type and/or a new route that uses it; pre-existing components must not change.
 	TagField   int    `json:"tagField"`   // which field-usage of a named type gets an extra tag
 	Tag        string `json:"tag"`        // the validator added
+	TagAll     bool   `json:"tagAll"`     // tag every usage site (fields and parameters), rotating through the tag list from Tag on
 	AddRoute   bool   `json:"addRoute"`   // add a route returning the same type
 	TargetPick int    `json:"targetPick"` // which reachable named type the new route uses
 }
@@ -33,11 +34,16 @@ var c07Profile = func() projgen.Profile {
 	return pf
 }()
 
+var c07Tags = []string{"oneof=active", "oneof=1 2", "enum=a|b", "required", "min=1", "max=3", "email", "len=4", "gt=0",
+	// go-playground's dive: the rules after it are about a collection's elements
+	"dive,oneof=active", "dive,oneof=1 2", "dive,enum=a|b", "dive,required", "dive,min=1", "dive,gt=0", "required,dive,len=4"}
+
 func c07Gen(t *rapid.T) c07Model {
 	return c07Model{
 		Project:    projgen.GenProject(t, c07Profile),
 		TagField:   rapid.IntRange(0, 30).Draw(t, "tagField"),
-		Tag:        rapid.SampledFrom([]string{"oneof=active", "oneof=1 2", "enum=a|b", "required", "min=1", "max=3", "email", "len=4", "gt=0"}).Draw(t, "tag"),
+		Tag:        rapid.SampledFrom(c07Tags).Draw(t, "tag"),
+		TagAll:     rapid.IntRange(0, 2).Draw(t, "tagAll") > 0,
 		AddRoute:   rapid.Bool().Draw(t, "addRoute"),
 		TargetPick: rapid.IntRange(0, 30).Draw(t, "targetPick"),
 	}
@@ -214,20 +220,55 @@ func c07Derive(m c07Model) (*projgen.Project, string) {
 	for _, name := range projgen.SortedTypeNames(reach) {
 		d := reach[name]
 		for i, f := range d.Fields {
-			if f.Raw == "" && !f.Embedded && f.Type.Kind == "named" {
+			// directly, or through pointers and slices (maps keep their own inline schema)
+			if inner := namedThrough(f.Type); f.Raw == "" && !f.Embedded && inner != nil {
 				sites = append(sites, site{d, i})
 			}
 		}
 	}
-	if len(sites) > 0 {
-		s := sites[m.TagField%len(sites)]
+	tagAt := func(k int) string {
+		base := 0
+		for i, tg := range c07Tags {
+			if tg == m.Tag {
+				base = i
+			}
+		}
+		return c07Tags[(base+k)%len(c07Tags)]
+	}
+	addTag := func(s site, tag string) {
 		f := &s.d.Fields[s.i]
 		if f.Validate == "" {
-			f.Validate = m.Tag
+			f.Validate = tag
 		} else {
-			f.Validate += "," + m.Tag
+			f.Validate += "," + tag
 		}
-		what = append(what, fmt.Sprintf("tag %q added to %s.%s (type %s)", m.Tag, s.d.Name, f.Name, f.Type.Name))
+		what = append(what, fmt.Sprintf("tag %q added to %s.%s (type %s)", tag, s.d.Name, f.Name, namedThrough(f.Type).Name))
+	}
+	if m.TagAll {
+		for k, s := range sites {
+			addTag(s, tagAt(k))
+		}
+		k := len(sites)
+		for _, c := range p.Controllers {
+			for _, mt := range c.Methods {
+				for pi := range mt.Params {
+					prm := &mt.Params[pi]
+					if prm.In == "body" || prm.In == "context" || namedThrough(prm.Type) == nil || mt.RawSig != "" || mt.RawDoc != nil {
+						continue
+					}
+					tag := tagAt(k)
+					k++
+					if prm.Validator == "" {
+						prm.Validator = tag
+					} else {
+						prm.Validator += "," + tag
+					}
+					what = append(what, fmt.Sprintf("tag %q added to parameter %s of %s (type %s)", tag, prm.Name, mt.Name, namedThrough(prm.Type).Name))
+				}
+			}
+		}
+	} else if len(sites) > 0 {
+		addTag(sites[m.TagField%len(sites)], m.Tag)
 	}
 	if m.AddRoute && len(reach) > 0 && len(p.Controllers) > 0 {
 		names := projgen.SortedTypeNames(reach)
@@ -308,13 +349,20 @@ func c07Check(m c07Model, rec *ev.Recorder) []harness.Viol {
 				continue
 			}
 			d := p2.FindType("", name)
-			// the struct that received the tag legitimately changes (its own declaration changed)
+			// a struct that received a tag legitimately changes, but only in the tagged properties and its required list
+			before := s1[name]
 			if d != nil && strings.Contains(what, "added to "+name+".") {
-				continue
+				tagged := map[string]bool{}
+				for _, f := range d.Fields {
+					if strings.Contains(what, "added to "+name+"."+f.Name+" ") {
+						tagged[f.JSONName()] = true
+					}
+				}
+				before, after = c07StripProps(before, tagged), c07StripProps(after, tagged)
 			}
-			if jsonStr(s1[name]) != jsonStr(after) {
+			if jsonStr(before) != jsonStr(after) {
 				viols = append(viols, harness.Viol{Signature: "C07:usage-changes-shared-component:" + v,
-					Message: fmt.Sprintf("[%s] after: %s — component %s changed from %s to %s", v, what, name, jsonStr(s1[name]), jsonStr(after))})
+					Message: fmt.Sprintf("[%s] after: %s — component %s changed from %s to %s", v, what, name, jsonStr(before), jsonStr(after))})
 			}
 		}
 	}
@@ -411,4 +459,49 @@ func TestC07(t *testing.T) {
 		Assume: []string{"unexported fields and json:\"-\" fields are not generated in the main profile (finding F-C07-2 is replayed as a witness)", "type names are unique across packages"},
 		Floors: map[string]float64{"nontrivial": 0.1, "accepted": 0.9, "metamorphic-pair": 0.35},
 	})
+}
+
+// namedThrough returns the named type a field's type reaches through pointers and slices, or nil.
+func namedThrough(t projgen.TypeRef) *projgen.TypeRef {
+	for t.Kind == "ptr" || t.Kind == "slice" {
+		if t.Elem == nil {
+			return nil
+		}
+		t = *t.Elem
+	}
+	if t.Kind == "named" {
+		return &t
+	}
+	return nil
+}
+
+// c07StripProps returns a copy of a struct schema without the named properties and without required lists.
+func c07StripProps(schema any, names map[string]bool) any {
+	switch x := schema.(type) {
+	case map[string]any:
+		out := map[string]any{}
+		for k, v := range x {
+			switch k {
+			case "required":
+			case "properties":
+				props := map[string]any{}
+				for pn, pv := range asMap(v) {
+					if !names[pn] {
+						props[pn] = pv
+					}
+				}
+				out[k] = props
+			case "allOf":
+				var l []any
+				for _, e := range asSlice(v) {
+					l = append(l, c07StripProps(e, names))
+				}
+				out[k] = l
+			default:
+				out[k] = v
+			}
+		}
+		return out
+	}
+	return schema
 }
